@@ -67,12 +67,62 @@ fn long_text_line(rng: &mut Rng) -> Vec<u8> {
     make_line(ADDR, 1, 1, None, b"B", &chars, fill)
 }
 
+fn soak(seed: u64, run: u64, large: bool) -> Scenario {
+    let mut rng = Rng::new(seed ^ 0x50a4_50a4);
+    let target = if large { rng.range(65_600, 70_000) } else { rng.range(300, 1_500) };
+    let mut ops: Vec<Op> = Vec::with_capacity(target + 100);
+    let mut chunks = 0;
+    while ops.len() < target {
+        // mostly clean reassembly traffic (so that groups complete and are counted), some chaos
+        let profile = if rng.ratio(3, 4) { LinkProfile::Reassembly } else { LinkProfile::Chaos };
+        let (chunk, _, _) = chaos_ops(&mut rng, profile, true, 1, 90);
+        for o in chunk {
+            match o {
+                Op::Line(mut l) => {
+                    l.node = 0;
+                    if large {
+                        // keep the large shape light: no annotations the oracle does not read
+                        l.orig = None;
+                        l.sent = None;
+                    }
+                    ops.push(Op::Line(l));
+                }
+                Op::Restart { .. } => {} // a restart would reset whatever is being counted
+                o => ops.push(o),
+            }
+        }
+        chunks += 1;
+    }
+    Scenario {
+        prop: "C01".into(),
+        seed,
+        run,
+        nodes: 1,
+        ops,
+        stream: None,
+        config: format!("shape=soak-{} target={} chunks={}", if large { "large" } else { "small" }, target, chunks),
+        hidden_faults: take_hidden_faults(),
+    }
+}
+
 impl Prop for C01 {
     fn id(&self) -> &'static str {
         "C01"
     }
 
     fn generate(&self, seed: u64, run: u64) -> Scenario {
+        // soak shapes: long histories on one parser (hundreds of lines in one run of 150, more
+        // than 65 536 in one of 4 000), for anything that counts lines, groups or errors in a
+        // narrow integer. Decided by a hash of the seed that is independent of the run's own
+        // PRNG stream, so that every other run is exactly what it was before the shapes existed.
+        let mut h = seed ^ 0xc01_50a4_c01_50a4;
+        let pick = crate::rng::splitmix64(&mut h);
+        if pick % 150 == 1 {
+            return soak(seed, run, false);
+        }
+        if pick % 4000 == 2 {
+            return soak(seed, run, true);
+        }
         let mut rng = Rng::new(seed);
         let shape = rng.below(200);
         let (mut ops, nodes, mut desc);
@@ -82,15 +132,21 @@ impl Prop for C01 {
             let n = *rng.pick(&[255u8, 255, 254]);
             let id = Some(rng.below(10) as u8);
             ops = Vec::new();
+            // the first character decides whether the reassembled payload decodes (type 1), is of
+            // an unsupported type (0, 22, 63) or too short for its type (5)
+            let first: &[u8] = *rng.pick(&[&b"1"[..], b"1", b"0", b"F", b"w", b"5"]);
             for k in 1..n {
-                ops.push(Op::Line(LineOp::plain(0, make_line(ADDR, n, k, id, b"A", b"1", 0), false)));
+                ops.push(Op::Line(LineOp::plain(0, make_line(ADDR, n, k, id, b"A", if k == 1 { first } else { b"1" }, 0), false)));
             }
-            for _ in 0..rng.range(1, 4) {
-                let k = *rng.pick(&[0u8, 0, 1, 254, 255, 255]);
-                let nn = *rng.pick(&[255u8, 255, 0, 1]);
+            for _ in 0..rng.range(1, 5) {
+                let (nn, k) = match rng.below(3) {
+                    0 => *rng.pick(&[(2u8, 2u8), (3, 2), (3, 3), (2, 1), (9, 5), (255, 2), (n, n), (n, n)]),
+                    _ => (*rng.pick(&[255u8, 255, 0, 1]), *rng.pick(&[0u8, 0, 1, 254, 255, 255])),
+                };
+                let fid = if rng.ratio(1, 6) { None } else { id };
                 ops.push(Op::Line(LineOp::plain(
                     0,
-                    make_line(ADDR, nn, k, id, b"A", b"1", 0),
+                    make_line(ADDR, nn, k, fid, b"A", b"1", 0),
                     rng.ratio(1, 2),
                 )));
             }
@@ -297,6 +353,8 @@ impl Prop for C01 {
             if let Some(st) = st.as_deref_mut() {
                 if build == Build::Std {
                     st.histories.insert(combined_history(&abs));
+                    st.probe_if(sc.ops.len() > 256 && sc.nodes == 1, "history:more than 256 lines on one parser");
+                    st.probe_if(sc.ops.len() > 65_536 && sc.nodes == 1, "history:more than 65536 lines on one parser");
                 }
             }
         }
